@@ -60,10 +60,10 @@ def shards(tier, seed):
         for scb_ in ("ok", "send_on_connected", "slow_connected", "raise"):
             if not (kind == "actisense" and scb_ == "send_on_connected"):
                 out.append({"name": f"{kind}-reset_at_accept-{scb_}", "kind": kind, "what": "fault", "fault": "reset_at_accept", "scb": scb_, "tier": tier, "seed": seed})
-        for fault in ("eof", "reset", "garbage_eof", "write_error", "eof_midpacket", "busy_reply", "garbage_overrun", "eof_while_send_blocked"):
+        for fault in ("eof", "reset", "garbage_eof", "write_error", "eof_midpacket", "busy_reply", "garbage_overrun", "eof_while_send_blocked", "write_error_read_silent"):
             if kind == "waveshare" and fault in ("eof", "garbage_eof", "eof_midpacket", "eof_while_send_blocked"):
                 continue
-            if kind == "actisense" and fault == "eof_while_send_blocked":
+            if kind == "actisense" and fault in ("eof_while_send_blocked", "write_error_read_silent"):
                 continue
             if fault == "busy_reply" and kind != "ebyte":
                 continue            # 'Sorry,Limited' is what an ECAN/EByte gateway answers when it has no free TCP slot
@@ -151,6 +151,10 @@ def fault_session(kind, fault, step, settle=40.0, scb="ok", second=None, mapping
                 c.pause_plan = [10 ** 8]
                 sim.spawn("send", make_send_message(kind))
                 loop.call_later(0.05, c.feed_eof)
+            elif fault == "write_error_read_silent":
+                # only the write direction breaks: the flush of a send() fails, the read side of the link stays silent (and open)
+                c.drain_fails = 0
+                sim.spawn("send", make_send_message(kind))
             elif fault == "write_error":
                 c.fail_write_after = 0
                 c.fail_exc = simgw.link_loss(kind, write=True)
@@ -538,6 +542,8 @@ def run_shard(spec, acc):
     seconds = ["reset", "eof", "write_error"] if kind != "waveshare" else ["reset", "write_error"]
     if kind == "actisense":
         seconds = ["reset", "eof"]
+    if fault == "write_error_read_silent":
+        seconds = ["write_error_read_silent", "write_error_read_silent", "reset"]
     if fault == "eof_while_send_blocked":
         # the parked send() keeps the send lock on the old, never closed transport: a second fault that is injected THROUGH
         # a send cannot happen (what becomes of later sends is C19's matter); faults of the read side can
@@ -551,7 +557,7 @@ def run_shard(spec, acc):
             simgw.judge_bystander(sim, acc, {"client": kind, "fault": fault, "step": step, "status_cb": scb})
         if mapping or fault in ("busy_reply", "reset_at_accept"):
             continue
-        if not quick or k_ % 4 == 0:
+        if not quick or k_ % 4 == 0 or (fault == "write_error_read_silent" and k_ % 2 == 0):
             # the same session with another fault a few seconds after the first recovery
             sec = (seconds[k_ % len(seconds)], 8.0 + (k_ % 5) * 0.37)
             sim, stats, info = fault_session(kind, fault, step, scb=scb, second=sec)
